@@ -41,12 +41,16 @@ class PixCoord:
     """
 
     def __init__(self, x, y):
-        x, y = np.broadcast_arrays(x, y)
+        xb, yb = np.broadcast_arrays(x, y)
 
-        if x.shape == ():
-            self.x, self.y = x.item(), y.item()
+        if xb.shape == ():
+            self.x, self.y = xb.item(), yb.item()
         else:
-            self.x, self.y = x, y
+            # an input that was expanded by the broadcast is a view
+            # whose repeated elements share memory; it is copied so
+            # that every element is independent
+            self.x = xb if np.shape(x) == xb.shape else xb.copy()
+            self.y = yb if np.shape(y) == yb.shape else yb.copy()
 
     def copy(self):
         return self.__class__(copy.deepcopy(self.x), copy.deepcopy(self.y))
